@@ -77,8 +77,8 @@ class FunctionInteractionsUtils(object):
         non_empty_paths = [p for p in paths if p != empty_path]
 
         # There are both empty paths and non-empty paths. it should be one or the other.
-        if len(paths) > len(non_empty_paths) > 0 and current_prefix is not None:
-            res.append(current_prefix)
+        if len(paths) > len(non_empty_paths) > 0:
+            res.append(current_prefix if current_prefix is not None else empty_path)
 
         # groupby only groups adjacent elements: bring the paths that share their first segment together
         splits = sorted(
